@@ -103,6 +103,16 @@ func (im *Image) apply(op *vfs.Op, partial int) {
 		im.Files[op.Path] = []byte{}
 	case "remove":
 		delete(im.Files, op.Path)
+	case "truncate":
+		old := im.Files[op.Path]
+		nb := make([]byte, op.Off)
+		copy(nb, old)
+		im.Files[op.Path] = nb
+	case "rename":
+		if b, ok := im.Files[op.Path]; ok {
+			im.Files[op.Note] = b
+			delete(im.Files, op.Path)
+		}
 	case "mkdir":
 		p := op.Path
 		for p != "." && p != "" && p != "/" {
@@ -224,16 +234,24 @@ func newDigester(im *Image) *digester {
 // returns a function to call after it.
 func (d *digester) track(im *Image, op *vfs.Op) func() {
 	switch op.Kind {
-	case "create", "remove", "write":
-		if h, ok := d.files[op.Path]; ok {
-			d.xor(h)
-			delete(d.files, op.Path)
+	case "create", "remove", "write", "truncate", "rename":
+		paths := []string{op.Path}
+		if op.Kind == "rename" {
+			paths = append(paths, op.Note)
+		}
+		for _, p := range paths {
+			if h, ok := d.files[p]; ok {
+				d.xor(h)
+				delete(d.files, p)
+			}
 		}
 		return func() {
-			if b, ok := im.Files[op.Path]; ok {
-				h := entryHash('f', op.Path, b)
-				d.files[op.Path] = h
-				d.xor(h)
+			for _, p := range paths {
+				if b, ok := im.Files[p]; ok {
+					h := entryHash('f', p, b)
+					d.files[p] = h
+					d.xor(h)
+				}
 			}
 		}
 	case "mkdir":
@@ -312,19 +330,46 @@ var flagNames = map[uint32]string{1: "blk", 2: "hgt", 3: "trie", 4: "act", 5: "t
 
 const recordHeadLen = 18 // binary.Size(store.RecordHead{}): Flg u32, Len u32, TimeStamp u64, Crc u16
 
+const batchRecordFlag = 0x42415443 // a whole batch as one record (see fixes/02): its value is the batch's records
+
 // recordsIn parses the record stream of a write-ahead / bitcask write: the flags of the records and
-// the offsets (relative to the start of the data) at which records start.
+// the offsets (relative to the start of the data) at which records start. A batch record is looked
+// into: its inner records are listed (their starts are positions inside the outer record).
 func recordsIn(data []byte) (flags []uint32, starts []int) {
 	off := 0
 	for off+recordHeadLen <= len(data) {
 		flg := binary.LittleEndian.Uint32(data[off:])
 		ln := binary.LittleEndian.Uint32(data[off+4:])
-		if flagNames[flg] == "" || ln == 0 {
+		if (flagNames[flg] == "" && flg != batchRecordFlag) || ln == 0 {
 			break
 		}
 		total := recordHeadLen + int(ln)
 		if total%256 != 0 {
 			total += 256 - total%256
+		}
+		if flg == batchRecordFlag {
+			starts = append(starts, off)
+			if off+recordHeadLen+int(ln) <= len(data) {
+				body := data[off+recordHeadLen : off+recordHeadLen+int(ln)]
+				if content, rest1, err := rlp.SplitList(body); err == nil {
+					h1 := len(body) - len(content) - len(rest1)
+					if _, rest2, err := rlp.SplitString(content); err == nil {
+						keyTotal := len(content) - len(rest2)
+						if val, rest3, err := rlp.SplitString(rest2); err == nil {
+							valOff := off + recordHeadLen + h1 + keyTotal + (len(rest2) - len(val) - len(rest3))
+							f2, s2 := recordsIn(val)
+							flags = append(flags, f2...)
+							for _, s := range s2 {
+								if s > 0 {
+									starts = append(starts, valOff+s)
+								}
+							}
+						}
+					}
+				}
+			}
+			off += total
+			continue
 		}
 		flags = append(flags, flg)
 		starts = append(starts, off)
@@ -354,7 +399,7 @@ func fileClass(path string) string {
 	switch {
 	case path == "tmp.data":
 		return "wal"
-	case path == "context.data":
+	case strings.HasPrefix(path, "context.data"):
 		return "ctx"
 	case strings.HasSuffix(path, ".data"):
 		return "cask"
@@ -394,7 +439,7 @@ func opName(op *vfs.Op) string {
 			return c + ":write:ctx[" + part + "]"
 		}
 		return c + ":write:" + fc + "[" + recordTags(op.Data) + "]"
-	case "create", "remove", "sync", "mkdir":
+	case "create", "remove", "sync", "mkdir", "truncate", "rename":
 		return c + ":" + op.Kind + ":" + fileClass(op.Path)
 	case "ldbput":
 		return c + ":ldb:" + ldbKeyName(op.Key)
@@ -464,7 +509,7 @@ func describeWal(b []byte) string {
 	for off+recordHeadLen <= len(b) {
 		flg := binary.LittleEndian.Uint32(b[off:])
 		ln := int(binary.LittleEndian.Uint32(b[off+4:]))
-		if flagNames[flg] == "" || ln == 0 {
+		if (flagNames[flg] == "" && flg != batchRecordFlag) || ln == 0 {
 			fmt.Fprintf(&sb, "@%d:garbage ", off)
 			break
 		}
@@ -481,7 +526,11 @@ func describeWal(b []byte) string {
 				state = "(undecodable)"
 			}
 		}
-		fmt.Fprintf(&sb, "@%d:%s%s ", off, flagNames[flg], state)
+		name := flagNames[flg]
+		if flg == batchRecordFlag {
+			name = "batch{" + recordTags(b[off:]) + "}"
+		}
+		fmt.Fprintf(&sb, "@%d:%s%s ", off, name, state)
 		off += total
 	}
 	return strings.TrimSpace(sb.String())
